@@ -399,6 +399,12 @@ def run_stage(prop, stage, tier, seed, workdir, log):
                 notes.append(json.loads(line))
             except ValueError:
                 pass
+    distinct = {}
+    for dp in glob.glob(os.path.join(outdir, "dist.*")):
+        for line in open(dp, errors="replace"):
+            parts = line.split()
+            if len(parts) == 2:
+                distinct.setdefault(parts[0], set()).add(parts[1])
     census = []
     for up in glob.glob(os.path.join(outdir, "ubsan.*")):
         try:
@@ -407,7 +413,7 @@ def run_stage(prop, stage, tier, seed, workdir, log):
             pass
     return dict(stage=stage, obs=obs, summaries=summaries, fps=fps, samples=samples, notes=notes,
                 harness_fail=harness_fail, wall=time.time() - t0, build_s=t_build, exe=exe, nprocs=nprocs,
-                total=total, census=census, outdir=outdir)
+                total=total, census=census, outdir=outdir, distinct=distinct)
 
 
 # ----------------------------------------------------------------------------- property running
@@ -550,6 +556,12 @@ def run_property(prop, cfg, tier, seed, only_stage=None, post=None):
         inconclusive=inconclusive,
         tree_hash=build.tree_hash(),
     )
+    dist_all = {}
+    for r in results:
+        for k, vs in r.get("distinct", {}).items():
+            dist_all.setdefault(k, set()).update("%s:%s" % (r["stage"].name, v) for v in vs)
+    if dist_all:
+        coverage["distinct_observed"] = {k: len(v) for k, v in sorted(dist_all.items())}
     if census:
         coverage["ubsan_census_non_gating"] = census
     coverage.update(extra_cov)
